@@ -2238,6 +2238,61 @@ def module_builtin_scenarios():
     return out
 
 
+def module_path_scenarios():
+    """the module table is keyed by the path AS WRITTEN: a path that carries the file extension is a module of its own that also loads once and
+    takes part in cycle detection; importing a module that is already loaded needs no call frame (it works in the deepest frame the
+    interpreter allows); an aliased import whose path has no final component is an ordinary run-time ImportError for the statement, not
+    a compile error for the whole script."""
+    out = []
+    # 1. paths with the extension written out
+    for twice, cyc in itertools.product(("same-module", "from-function", "other-module"), (False, True)):
+        ub = Builder(first_decl=5000)
+        ub.print(lit("util body")); ub.var("count", lit(0))
+        ub.fn("bump", []); ub.expr(ub.assign("count", bin_("+", ub.v("count"), lit(1)))); ub.ret(ub.v("count")); ub.end()
+        if cyc:
+            ub.try_(); ub.import_("peer.yl", "p"); ub.print(tup(lit("util sees peer"), get(ub.v("p"), "name"))); ub.catch("e")
+            ub.print(tup(lit("util caught"), call(ub.v("type"), ub.v("e")), get(ub.v("e"), "context"))); ub.end()
+        pb = Builder(first_decl=6000)
+        pb.print(lit("peer body")); pb.var("name", lit("peer"))
+        pb.try_(); pb.import_("util.yl", "u"); pb.print(tup(lit("peer sees util count"), get(pb.v("u"), "count"))); pb.catch("e")
+        pb.print(tup(lit("peer caught"), call(pb.v("type"), pb.v("e")), get(pb.v("e"), "context"))); pb.end()
+        b = Builder()
+        b.import_("util.yl", "u1")
+        b.print(inv(b.v("u1"), "bump"))
+        if twice == "same-module":
+            b.import_("util.yl", "u2")
+        elif twice == "from-function":
+            b.fn("again", []); b.import_("util.yl", "inner"); b.ret(b.v("inner")); b.end(); b.var("u2", call(b.v("again")))
+        else:
+            b.import_("peer.yl", "pr"); b.import_("util.yl", "u2")
+        b.print(tup(bin_("==", b.v("u1"), b.v("u2")), inv(b.v("u2"), "bump"), get(b.v("u1"), "count")))
+        out.append(("modpath:ext:%s:%d" % (twice, int(cyc)), {"snips": [{"prog": b.toks}], "mods": [{"path": "util.yl", "prog": ub.toks}, {"path": "peer.yl", "prog": pb.toks}]}))
+    # 2. an import of a loaded module in the deepest frames
+    for depth, loaded in itertools.product((60, 61, 62, 63), (True, False)):
+        lb = Builder(first_decl=5000)
+        lb.print(lit("lib body")); lb.var("count", lit(7))
+        b = Builder()
+        if loaded:
+            b.import_("lib", "first")
+        b.fn("walk", ["n"])
+        b.if_(bin_(">", b.v("n"), lit(0))); b.ret(call(b.v("walk"), bin_("-", b.v("n"), lit(1)))); b.end()
+        b.import_("lib", "deep")
+        b.ret(get(b.v("deep"), "count"))
+        b.end()
+        b.try_(); b.print(tup(lit("walk"), lit(depth), call(b.v("walk"), lit(depth)))); b.catch("e")
+        b.print(tup(lit("walk"), lit(depth), lit("failed"), call(b.v("type"), b.v("e")), get(b.v("e"), "context"))); b.end()
+        b.print(lit("end"))
+        out.append(("modpath:deep:%d:%d" % (depth, int(loaded)), {"snips": [{"prog": b.toks}], "mods": [{"path": "lib", "prog": lb.toks}]}))
+    # 3. aliased imports whose path has no final component
+    for path in ("", "/", "..", "dir/.."):
+        b = Builder()
+        b.print(lit("script starts"))
+        b.try_(); b.import_(path, "odd"); b.print(lit("imported?")); b.catch("e"); b.print(tup(lit("caught"), call(b.v("type"), b.v("e")))); b.end()
+        b.print(lit("script goes on"))
+        out.append(("modpath:nofile:%s" % path, {"snips": [{"prog": b.toks}], "mods": []}))
+    return out
+
+
 # ---------------------------------------------------------------------------------------------------
 # C15: sequences of snippets fed to one interpreter
 # ---------------------------------------------------------------------------------------------------
